@@ -45,7 +45,7 @@ var ownDiscipline = map[string]string{
 	// Conn
 	"Conn.c": "init-only", "Conn.maxWindow": "init-only", "Conn.current": "init-only", "Conn.disableAcks": "init-only",
 	"Conn.winCh": "init-only", "Conn.in": "init-only", "Conn.out": "init-only", "Conn.done": "init-only",
-	"Conn.br": "owner:go:(*Conn).readLoop", "Conn.dec": "owner:go:(*Conn).readLoop", "Conn.currentWindow": "owner:go:(*Conn).readLoop",
+	"Conn.br": "owner:go:(*Conn).readLoop", "Conn.dec": "owner:go:(*Conn).readLoop", "Conn.block": "owner:go:(*Conn).readLoop", "Conn.currentWindow": "owner:go:(*Conn).readLoop",
 	"Conn.serverS": "owner:go:(*Conn).readLoop", "Conn.state": "owner:go:(*Conn).readLoop", "Conn.closeRef": "owner:go:(*Conn).readLoop",
 	"Conn.enc": "owner:go:(*Conn).writeLoop", "Conn.encTableSizeSeen": "owner:go:(*Conn).writeLoop", "Conn.pingInterval": "owner:go:(*Conn).writeLoop",
 	"Conn.bw":         "mutex:Conn.bwLck",
